@@ -117,6 +117,14 @@ func (g *G) tx(v *view, check bool) script.Tx {
 			kind = prerequisite[kind]
 		}
 	}
+	if g.w.bulkPct > 0 && g.chance(g.w.bulkPct) {
+		kind = g.pick("wrk.buy", "bcn.buy")
+	}
+	if (kind == "wrk.buy" || kind == "bcn.buy") && (g.chance(30) || g.w.bulkPct > 0) {
+		if t, ok := g.bulkBuy(v, kind); ok {
+			return t
+		}
+	}
 	var msgs []script.Msg
 	first := g.msg(kind, v, aware, -1, 0)
 	if kind != "authz.exec" && g.chance(g.w.execPct) {
@@ -174,6 +182,50 @@ func (g *G) tx(v *view, check bool) script.Tx {
 	}
 	g.st.MsgsPerTx[itoa(len(msgs))]++
 	return t
+}
+
+// bulkBuy assembles a transaction of several storage purchases of one module for different registrations —
+// existing and unknown ones, within and beyond what may be purchased — signed by one account: the slot check of
+// the ante handler sums the requests per registration in a map and walks that map.
+func (g *G) bulkBuy(v *view, kind string) (script.Tx, bool) {
+	rv := &v.wrk
+	if kind[:3] == "bcn" {
+		rv = &v.bcn
+	}
+	if len(rv.items) == 0 {
+		return script.Tx{}, false
+	}
+	first := rv.items[g.rng.Intn(len(rv.items))]
+	if first.owner < 0 {
+		return script.Tx{}, false
+	}
+	var msgs []script.Msg
+	for n := 2 + g.rng.Intn(3); n > 0; n-- {
+		id, room := g.unknownID(rv.next), rv.max
+		if g.chance(60) {
+			it := rv.items[g.rng.Intn(len(rv.items))]
+			if g.chance(50) {
+				it = first
+			}
+			id, room = u(it.id), 0
+			if rv.max > it.limit {
+				room = rv.max - it.limit
+			}
+		}
+		num := uint64(1 + g.rng.Intn(3))
+		switch g.rng.Intn(4) {
+		case 0:
+			num = room + 1
+		case 1:
+			num = rv.max + 1 + uint64(g.rng.Intn(3))
+		}
+		msgs = append(msgs, script.M(kind, id, u(num), A(first.owner)))
+	}
+	t := script.Tx{N: g.next(), Signers: []string{A(first.owner)}, Granter: "-", Sig: "ok", Msgs: msgs}
+	t.Fee = g.feeToken(v, msgs)
+	g.st.MsgsPerTx[itoa(len(msgs))]++
+	g.st.MsgsPerTx["bulk-buy"]++
+	return t, true
 }
 
 // govMsg generates the payload of a GOVEXEC line: a parameter update of one of the four
